@@ -13,7 +13,7 @@ FLAVOURS = {
                                    "-fno-sanitize-recover=undefined", "-fno-omit-frame-pointer"],
                  link=["-fsanitize=address,undefined"]),
     "plain": dict(cxx="g++", flags=["-O2", "-g1"], link=[]),
-    "tsan": dict(cxx="clang++", flags=["-O1", "-g", "-fsanitize=thread", "-fno-omit-frame-pointer"],
+    "tsan": dict(cxx="clang++", flags=["-O1", "-g", "-fsanitize=thread", "-fno-omit-frame-pointer", "-DSIM_NO_ALLOC_SEAM", "-DSIM_TSAN"],
                  link=["-fsanitize=thread"]),
 }
 COMMON = ["-msse4", "-Wall", "-Wno-unused-function", "-Wno-sign-compare", "-Wno-unused-variable", "-pthread"]
@@ -44,9 +44,12 @@ def build(flavour, verbose=False):
     used = set()
     def add(src, std, extra, deps):
         flags = fl["flags"] + COMMON + [std] + extra
-        if flavour == "tsan" and os.path.basename(src) in ("simfs.cpp", "sched.cpp"):
+        if flavour == "tsan" and os.path.basename(src) in ("simfs.cpp", "simsched.cpp", "alloc.cpp"):
             # harness state shared between simulated threads lives in uninstrumented translation units (DESIGN 2.1-6)
             flags = [f for f in flags if f != "-fsanitize=thread"]
+        if flavour == "tsan" and src.startswith(os.path.join(REPO, "src")) and "/bin/" not in src:
+            # pre-emption points: one callback per basic block of library code (sched.cpp)
+            flags = flags + ["-fsanitize-coverage=trace-pc-guard"]
         key = sha(read(src), deps, " ".join(flags), fl["cxx"])[:20]
         name = os.path.basename(src).replace(".cpp", "")
         if "/bin/" in src:
